@@ -52,8 +52,7 @@ Print Assumptions C16_refuted.
       CPython run print exactly the reference run's globals, up to the spare capacity the asp hook reports for a list built by a
       filtered comprehension (ostrip_outcome; CPython has no such thing).  Kept OUT by the reference evaluator: defaults that are
       not scalar literals (evaluated at call time by asp), def inside a function, an argument bound twice, a positional argument
-      after a keyword one, range with a step <= 0, a comprehension over a range whose Len() is smaller than the number of items
-      kept, int/bool comparisons inside `in`, dict literals with unsorted keys, += on lists, str() of containers. *)
+      after a keyword one, range with a step <= 0, int/bool comparisons inside `in`, dict literals with unsorted keys, += on lists, str() of containers. *)
 Definition C16_partial_statement : Prop :=
   (forall fuel (p : prog) ps,
      in_pure_subset p = true -> pure_run fuel p = Ok ps ->
@@ -100,7 +99,13 @@ Definition C16_partial_statement : Prop :=
   /\ (forall fuel (p : prog) ps,
         in_pure2_subset p = true -> pure2_run fuel p = Ok ps ->
         map ostrip_outcome (run Asp [] fuel [p]) = map ostrip_outcome (run Py [] fuel [p])
-        /\ map ostrip_outcome (run Asp [] fuel [p]) = [OGlobals (pure2_obs ps) (pure2_obs ps)]).
+        /\ map ostrip_outcome (run Asp [] fuel [p]) = [OGlobals (pure2_obs ps) (pure2_obs ps)])
+  (* 8. pyRange.Len (/repo 3ce4752): the length the evaluator uses for a range IS the body gotrans regenerates from objects.go,
+        and it is the number of items asp's iteration yields for every range whose span fits 64 bits - so the capacity
+        interpretList reserves for a comprehension over a range is never negative and never too small *)
+  /\ (forall a b c, range_len a b c = Gen.C16Builtins.pyrange_len wrap64 a b c)
+  /\ (forall a b c items, range_items Asp a b c = Ok items -> in_int64 (b - a + c - 1) = true ->
+        range_len a b c = Z.of_nat (length items)).
 
 Theorem C16_partial : C16_partial_statement.
 Proof.
@@ -108,7 +113,7 @@ Proof.
         (conj (@chain_class_none_safe vexpr)
         (conj (@groupings_agree vexpr value)
         (conj int_ops_agree (conj list_add_always_fresh (conj int_chain_program_agrees
-        (conj asp_sorted_stable (conj asp_sorted_is_the_stable_sort (conj asp_sorted_perm_all_lengths (conj dict_union_always_fresh (conj dict_union_independent (conj union_translated_is_apply_bin pure2_subset_program_agrees))))))))))))).
+        (conj asp_sorted_stable (conj asp_sorted_is_the_stable_sort (conj asp_sorted_perm_all_lengths (conj dict_union_always_fresh (conj dict_union_independent (conj union_translated_is_apply_bin (conj pure2_subset_program_agrees (conj range_len_is_source range_len_counts_items))))))))))))))).
 Qed.
 Print Assumptions C16_partial.
 
@@ -253,4 +258,20 @@ Example C16_partial_pure2_nonvacuous :
   /\ in_pure_subset pure2_example = false
   /\ in_pure2_subset pure2_unsorted = true /\ is_ok (pure2_run FUEL pure2_unsorted) = false
   /\ list_eqb outcome_eqb (map ostrip_outcome (run Asp [] FUEL [pure2_unsorted])) (map ostrip_outcome (run Py [] FUEL [pure2_unsorted])) = false.
+Proof. vm_compute. repeat split. Qed.
+
+(* ... and of conjunct 8, the two regression scenarios of /repo 3ce4752: l = [x for x in range(3, 2)] is [] and
+   m = [x for x in range(1, 3, 3)] is [1] in both dialects and in the reference run (before the fix the asp dialect raised /
+   refused); the old formula (Stop - Start) / Step gives -1 and 0 on them. *)
+Example C16_partial_range_len_nonvacuous :
+  let rng (l : list Z) := Ex (XCall (s "range") (map (fun z => (@None str, Ex (XInt z) [] None)) l)) [] None in
+  let p := [SAssign (s "l") (Ex (XComp (Ex (XIdent (s "x")) [] None) [s "x"] (rng [3; 2]%Z) None) [] None);
+            SAssign (s "m") (Ex (XComp (Ex (XIdent (s "x")) [] None) [s "x"] (rng [1; 3; 3]%Z) None) [] None)] in
+  in_pure2_subset p = true
+  /\ (match pure2_run FUEL p with
+      | Ok ps => pure2_obs ps = [(s "l", OList false 0 []); (s "m", OList false 0 [OInt 1%Z])]
+      | _ => False
+      end)
+  /\ run Asp [] FUEL [p] = [OGlobals [(s "l", OList false 0 []); (s "m", OList false 0 [OInt 1%Z])] [(s "l", OList false 0 []); (s "m", OList false 0 [OInt 1%Z])]]
+  /\ range_len 3 2 1 = 0%Z /\ range_len 1 3 3 = 1%Z /\ Z.quot (2 - 3) 1 = (-1)%Z /\ Z.quot (3 - 1) 3 = 0%Z.
 Proof. vm_compute. repeat split. Qed.
